@@ -534,6 +534,22 @@ class Emitter:
                 rec.rewrites["N1"] = rec.rewrites.get("N1", 0) + 1
                 k += 3; continue
             k += 1
+        # N12 `for &x in ITER {` (ref pattern, unsupported by Verus) -> `for x__ref in ITER { let x = *x__ref;`
+        # (the pattern `&x` binds x to the dereferenced item: a local, mechanical desugaring, inverted by the self-check)
+        k = body_lo
+        while k < end:
+            if toks[k].text == "for" and toks[k + 1].text == "&" and toks[k + 2].kind == "ident" and toks[k + 3].text == "in":
+                nm = toks[k + 2].text
+                q = k + 4
+                while q < end and toks[q].text != "{":
+                    if toks[q].kind == "punct" and toks[q].text in ("(", "["):
+                        q = match[q]
+                    q += 1
+                edits.append((toks[k + 1].start, toks[k + 2].end, "%s__ref" % nm, "N12"))
+                edits.append((toks[q].end, toks[q].end, " /*N12{*/ let %s = *%s__ref; /*}N12*/" % (nm, nm), "N12"))
+                rec.rewrites["N12"] = rec.rewrites.get("N12", 0) + 1
+                k = q + 1; continue
+            k += 1
         # N5 panic!(..) -> vpanic()
         k = body_lo
         while k < end:
@@ -601,6 +617,7 @@ def check_faithful(emitter, out_text):
         seg = "\n".join(lines[rec.out_first - 1:rec.out_last])
         # drop ghost
         seg = re.sub(re.escape(G_OPEN) + r".*?" + re.escape(G_CLOSE), " ", seg, flags=re.S)
+        seg = re.sub(r"/\*N12\{\*/.*?/\*\}N12\*/", " ", seg, flags=re.S)
         try:
             toks = [t.text for t in tokenize(seg)]
         except ScanError as e:
@@ -650,6 +667,8 @@ def _invert(toks, emitter):
         elif t == "v_u32_from_le_bytes": out.extend(["u32", ":", ":", "from_le_bytes"])
         elif t == "VErr": out.extend(["Box", "<", "dyn", "Error", ">"])
         elif re.match(r"_v\d+$", t): out.append("_")
+        elif t.endswith("__ref") and i > 0 and toks[i - 1] == "for":
+            out.extend(["&", t[:-5]])
         elif t in ("ff_mac", "ff_adc"):
             out.extend([":", ":", "ff", ":", ":", "derive", ":", ":", t[3:]])
         elif t in ("v_fp_zero", "v_fp_one") and toks[i + 1:i + 3] == ["(", ")"]:
